@@ -6,7 +6,7 @@
 From Coq Require Import QArith.
 From Isobar Require Import Base.Prelude Clock.Multiplier Clock.MultiplierProofs
      Clock.ClockRun Clock.ClockRunProofs Clock.MidiIn Clock.MidiInProofs
-    Clock.MidiInTimed Clock.MidiInTimedProofs Clock.MidiInWired Clock.MidiInWiredProofs.
+    Clock.MidiInTimed Clock.MidiInTimedProofs Clock.MidiInWired Clock.MidiInWiredProofs Clock.Reconfig Clock.ReconfigProofs.
 Local Open Scope Z_scope.
 
 Lemma multiple_of_some a b : 0 < a -> 0 < b -> multiple_of (Some a) (Some b) = (a, b).
@@ -348,6 +348,55 @@ Qed.
 Print Assumptions C14_midi_wired_reentry.
 
 (** ---------------------------------------------------------------------------------------------
+    4. Re-configuration after construction (Clock/Reconfig.v): the clock source is replaced or ticks_per_beat assigned,
+       devices are added / replaced while the timeline runs, send_clock is switched after the device was attached
+    --------------------------------------------------------------------------------------------- *)
+
+(* the timeline's rate has changed since the converters were made (whatever the history before: any rates, any phases):
+   the next n ticks tick the devices exactly as a timeline BUILT at the new rate with the same devices would — so every
+   ratio theorem above (C14_ratio_*, C14_beat_window, C14_midi_24, C14_refuse, C14_timeline_devices) holds for the new rate *)
+Theorem C14_reconfig_rate_change : forall n r c ds,
+  rate_eqb c r = false ->
+  run_calls (grun (GS r c ds) (repeat GTick n)) = tl_run r (tl_new (map (fun a => d_rate (a_dev a)) ds)) n.
+Proof. exact ticks_after_rate_change. Qed.
+Print Assumptions C14_reconfig_rate_change.
+
+(* a replacement that keeps the rate keeps the converters and their phase: the ticks go on as on an ordinary timeline *)
+Theorem C14_reconfig_same_rate : forall n r ds,
+  run_calls (grun (GS r r ds) (repeat GTick n)) = tl_run r (map a_dev ds) n.
+Proof. exact ticks_in_tune. Qed.
+Print Assumptions C14_reconfig_same_rate.
+
+(* send_clock: for ANY history of ticks, rate changes, added / replaced devices and send_clock switches, the
+   device.tick() calls are those of the history with every switch removed, whatever flags the devices were attached
+   with; a 'clock' message reaches the port exactly for the calls made while the flag is on.  Hence a MIDI output attached
+   with clock output off and switched on later is on the 24-PPQN grid of C14_midi_24 from the first pulse on. *)
+Theorem C14_send_clock_transparent : forall es s1 s2, same_conv s1 s2 ->
+  run_calls (grun s1 es) = run_calls (grun s2 (filter (fun e => negb (is_send_clock e)) es)).
+Proof. exact send_clock_transparent. Qed.
+Print Assumptions C14_send_clock_transparent.
+
+Theorem C14_send_clock_pulses : forall ds calls,
+  calls_of_obs (map (mark ds) calls) = calls
+  /\ pulses_of_obs (map (mark ds) calls) = filter (fun i => a_on (nth (Z.to_nat i) ds (fresh None false))) calls.
+Proof. intros. split; [apply calls_of_mark | apply pulses_of_mark]. Qed.
+Print Assumptions C14_send_clock_pulses.
+
+(* the clock source is REPLACED by an internal Clock made without a target (`timeline.clock_source = Clock(tempo=.., ticks_per_beat=n)`):
+   its converter was made for (n, n), the assignment does not re-make it, so — whatever rate the timeline had before — it
+   delivers floor(elapsed / new tick duration) timeline ticks for any non-decreasing readings *)
+Theorem C14_replaced_clock : forall n d t0 ts, 0 < n < S8 -> 0 < d -> nondecr t0 ts ->
+  clock_run (fst (clock_conv None n)) (snd (clock_conv None n)) [] d t0 (plain ts) = (map (fun t => (t - t0) / d) ts, COk).
+Proof.
+  intros n d t0 ts Hn Hd Hs. cbn [clock_conv fst snd].
+  assert (M : multiple_of (Some n) (Some n) = (n, n)) by (apply multiple_of_some; lia).
+  assert (R : refuses n n = false) by (rewrite refuses_iff by lia; rewrite Z.mod_same by lia; reflexivity).
+  rewrite (C14_catch_up (Some n) (Some n) n n d t0 ts) by (cbn; try lia; assumption).
+  f_equal. apply map_ext. intros t. apply owed_same. lia.
+Qed.
+Print Assumptions C14_replaced_clock.
+
+(** ---------------------------------------------------------------------------------------------
     The closed-form variants evaluated by the correspondence harness ARE the models above
     --------------------------------------------------------------------------------------------- *)
 Theorem C14_fast_variants_agree : forall out inn, rate_ok out -> rate_ok inn ->
@@ -412,4 +461,17 @@ Example C14_midi_wired_nonvacuous :
   /\ map (fun o => map rcall_code (o_calls o)) obs
      = [[0; 1]; [10; 20; 11; 21; 40]; [1]; [0; 1]; [10; 20; 11; 21; 40]; [1]; []; [0; 1]; [30; 31; 41]; [1]]
   /\ w_ticks wf = 6.
+Proof. vm_compute. repeat split. Qed.
+
+(* a 480-PPQN timeline with a MIDI output attached with clock output OFF and a 12-PPQN device: 3 ticks, send_clock on, the
+   clock source replaced by a 96-PPQN one, 8 ticks: the converters are re-made for 96 (MIDI pulse on ticks 0 and 4, the
+   12-PPQN device on tick 0 and 8); the same history without the switch makes the same device.tick() calls *)
+Example C14_reconfig_nonvacuous :
+  let es := [GTick; GTick; GTick; GSendClock 0 true; GSetRate (Some 96)] ++ repeat GTick 9 in
+  let s := g_new (Some 480) [(Some 24, false); (Some 12, true)] in
+  map enc_obs (fst (fst (grun s es))) = [1 * 8 + 4; 0; 0; 2 * 8 + 4; 0; 0; 0; 2; 0; 0; 0; 2 * 8 + 4]
+  /\ snd (grun s es) = TLOk
+  /\ run_calls (grun s es) = run_calls (grun s (filter (fun e => negb (is_send_clock e)) es))
+  /\ rate_eqb (Some 480) (Some 96) = false
+  /\ clock_conv None 96 = (Some 96, Some 96).
 Proof. vm_compute. repeat split. Qed.
